@@ -73,7 +73,11 @@ def type_items(pool, extra, rnd, thorough):
         pairs.append((rnd.choice(allu), rnd.choice(allu)))
     rep_pairs = [(a, b) for a in REPS for b in REPS]
     n = 0
+    seen_pairs = set()
     for (ua, ub) in pairs:
+        if (ua.expr, ub.expr) in seen_pairs:
+            continue
+        seen_pairs.add((ua.expr, ub.expr))
         rps = rep_pairs if thorough and n < 20 else rnd.sample(rep_pairs, 4)
         n += 1
         for (r1, r2) in rps:
